@@ -68,6 +68,12 @@ CLAIMS = {
    design_ref="DESIGN.md §4 C19",
    note="Trusted: Coq kernel; harness/c19.py. mapper.assume (path conditions) and the complexity measure are exercised through the implementation only.",
    technique="Coq proof of join covering both inputs + model/implementation join correspondence + membership oracle"),
+ "C14": dict(
+   category="proof",
+   text="Coq theorems over a byte-level model of the parsers: any record of fixed-width fields round-trips in either byte order; a table of any number of records at any offset and stride is read back; for every file holding an encoded ELF header and program/section/symbol tables (both classes, both byte orders, any counts and positions) the parser reports exactly the encoded records in canonical field order; string-table names; address->file-offset queries of Elf/PE/MachO follow the file's mapping; Intel-HEX and S-record lines decode to what they encode and are rejected when the checksum byte is wrong; HEX address composition follows the most recent extended-address record. Tie: regenerated obligations (layouts of the live ELF classes = the model's gABI tables), the model's parser run by vm_compute on the same synthesised ELF files as Elf(), PE/Mach-O queries and HEX/SREC lines model-vs-implementation, and independent struct-based readers (validated against readelf/objdump) vs amoco on synthesised ELF/PE/Mach-O images, the shipped samples and field-level variations. Twelve genuine defects found by this check were repaired.",
+   design_ref="DESIGN.md §4 C14",
+   note="Partial for PE/Mach-O beyond headers, section/segment tables, symbols and address queries (imports, TLS, dyld info, relocations are not modelled). Trusted: Coq kernel; harness/elfgen.py and fmtgen.py (reference readers/synthesisers).",
+   technique="Coq proofs of codec/parser round trips + regenerated layout obligations + model correspondence + differential testing against independent readers"),
  "C16": dict(
    category="proof",
    text="Coq theorems over a model of StructCore layout and the unpack/pack skeleton: every field of a non-packed structure sits at the least offset that is a multiple of its alignment and not before the previous field's end (the C ABI characterisation), packed structures have no padding, the size is a multiple of the alignment, unpack(pack(v)) = v for every field list and surrounding bytes, and the unsigned LEB128 codec round-trips for every number and trailing bytes. Tie: generated definitions (scalars, arrays, strings, full-width bitfields, nested structs/unions, packed or not, per-field byte order) through StructFactory vs the Gallina layout model (vm_compute); the C-layout reference is validated per run against gcc -m64 and -m32 -malign-double (sizeof/_Alignof/offsetof); unpack/pack round trips on random bytes for both pointer sizes; counted, bound, LEB128 (signed and unsigned, vs an independent encoder) and terminated fields. Nine genuine defects found by this check were repaired.",
